@@ -10,7 +10,7 @@ CLAIMED = {
         category="exploration",
         text="Seeded search over sessions that hold a program and its optimised copies (optimize(), compile(optimize=True)), which share RegRefs and "
              "operation objects, run in any order under the same simulator-owned outcome tape; oracle: same final state/samples for original and "
-             "optimised copy, user program fingerprint unchanged. Exploration is the right level: the failures of interest need a particular "
+             "optimised copy, user program fingerprint unchanged; free parameters may have been bound (with exactly cancelling values) before the optimisation and are re-bound after. Exploration is the right level: the failures of interest need a particular "
              "sharing/run-order/feed-forward history; the merge algebra itself is sampled, not exhausted.",
         design_ref="DESIGN.md section 4 (C03)", technique="deterministic simulation: seeded session histories over shared program objects with injected measurement outcomes",
         note="Trusts: the backends' gate physics only differentially (original vs optimised on the same backend); tolerance 1e-8 (Fock: truncation-derived)."),
@@ -18,7 +18,7 @@ CLAIMED = {
         category="exploration",
         text="The simulator owns the topological sorter: networkx's two sort routines are replaced by a seeded scheduler that picks every 'next ready "
              "command' (native order, random, adversarial far/near, and all choice sequences when the walk is small). Every reordering function is "
-             "checked under each schedule against a dependency relation computed from the circuit spec. Exploration: seeded sampling of circuits x "
+             "checked under each schedule against a dependency relation computed from the circuit spec, also after an earlier run left values in the registers, after foreign circuits went through the same functions, and with one compiler object kept for all compilations. Exploration: seeded sampling of circuits x "
              "schedules, exhaustive over schedules only for small DAGs.",
         design_ref="DESIGN.md section 4 (C04)", technique="deterministic simulation: seeded scheduler behind the topological-sort seam (schedule exploration)",
         note="Trusts: the SortSeam only returns orders the sorters' contract allows; reference relation = shared register mode or measured-parameter link."),
@@ -27,14 +27,14 @@ CLAIMED = {
         text="The simulator owns the RNG seam under every measurement: it inspects the distribution the backend hands to numpy.random / thewalrus "
              "(Born rule check against an independent calculation from the backend's own pre-call snapshot), then chooses the outcome (typical, +-6 sigma, "
              "forced rejections in the bosonic sampler) and checks the post-measurement state against the reference conditional state for that outcome, "
-             "vacuum reset, cross-backend agreement under post-selection and sample collation with unique injected outcomes.",
+             "vacuum reset, cross-backend agreement under post-selection and sample collation with unique injected outcomes; measurement requests the library refuses (several shots, post-selection with shots from the call or stored in the program) are fault points after which the state must be unchanged.",
         design_ref="DESIGN.md section 4 (C06)", technique="deterministic simulation: injected measurement outcomes at the RNG seam, per-call Born/conditioning oracles",
         note="Trusts: my ~200-line NumPy reference for Gaussian/Fock conditioning; Fock homodyne conditioning exact only for product states or outcome 0 (method inherent)."),
     "C08": dict(
         category="exploration",
         text="Seeded histories of New/Del/use/measure over 1-4 program segments on one engine, with injected invalid operations (deleted/unknown modes at "
              "front end, engine and raw backend level), reset and crash+recover, checked after every run against a reference register model using the "
-             "unique-coherent-amplitude idiom (any mix-up of rows, axes or labels shows as a wrong amplitude under a wrong name).",
+             "unique-coherent-amplitude idiom (any mix-up of rows, axes or labels shows as a wrong amplitude under a wrong name); on entangled / non-Gaussian states the history is compared with its twin without register operations (every mode present throughout) and creating or deleting a mode must leave all other modes untouched.",
         design_ref="DESIGN.md section 4 (C08)", technique="deterministic simulation: seeded operation histories with injected invalid ops and crashes vs a reference register model",
         note="Trusts: the reference model's one-line coherent-state update rules; Fock runs at |alpha|<=0.45, cutoff 6-7, tolerance 3e-3."),
     "C09": dict(
@@ -42,7 +42,7 @@ CLAIMED = {
         text="Sessions of 1-3 program segments executed under all call patterns (one list, one call per segment, concatenated, re-run on a fresh engine, "
              "alternating on two engines, after reset with a junk pre-history) with a simulator-owned outcome tape; fault batches inject an exception "
              "(RuntimeError / KeyboardInterrupt / MemoryError) before or after backend call k - k sampled, and in the sweep batches every k of the history - "
-             "then recover (reset or new engine) and require fingerprints of user programs unchanged and the next run equal to a fresh engine's.",
+             "then recover (reset, reset with new backend options, new engine, or - for a crash inside the first segment - a plain re-run on the same engine) and require fingerprints of user programs (every attribute of every operation object) and of the options dictionary unchanged and the next run equal to a fresh engine's.",
         design_ref="DESIGN.md section 4 (C09)", technique="deterministic simulation with fault injection: crash-point enumeration at backend-call boundaries over seeded session histories",
         note="Trusts: crash model = exception at a backend API boundary; documented mutable parts (RegRef.val, locked, bound parameter values) excluded from fingerprints."),
     "C10": dict(
@@ -50,7 +50,7 @@ CLAIMED = {
         text="Programs with symbolic parameter expressions are run with every measurement outcome fixed in advance by the simulator, so that a numeric twin "
              "(same spec, numbers from an independent 30-line evaluator) exists before anything runs; symbolic and twin must agree through every compile "
              "target, optimisation and multi-segment use, measured parameters must track the latest outcome of their own program's mode, and misuse must "
-             "raise ParameterError - all unchanged by foreign programs in the same process that reuse the same mode indices / parameter names.",
+             "raise ParameterError - all unchanged by foreign programs in the same process that reuse the same mode indices / parameter names. Exact special values (parameters bound to 0.0, outcomes of 0.0), photon counts in array-valued parameters and complex heterodyne outcomes (re/im/Abs/arg/conjugate) have their own batches.",
         design_ref="DESIGN.md section 4 (C10)", technique="deterministic simulation: injected outcome tape + numeric twin, histories incl. foreign activity in the same process",
         note="Trusts: my expression evaluator; states compared at 1e-7."),
     "C13": dict(
@@ -58,7 +58,7 @@ CLAIMED = {
         text="TDM programs are driven through seeded histories of unroll/space_unroll/roll/run; under the RNG seam the (mean, variance) the library asks "
              "for at pulse k must equal the sequential conditioning of an independently built fresh-mode-per-pulse reference circuit on the injected "
              "outcomes (exact statement of 'same joint state of all measured pulses'); sample layout, roll-back restoration and history-independence "
-             "of results are checked on the same histories.",
+             "of results are checked on the same histories, optionally after an interrupted run of the same program (crash at a backend call) that must leave it as it was; crop=True is checked on loop-structured programs against an independently computed number of leading vacuum pulses.",
         design_ref="DESIGN.md section 4 (C13)", technique="deterministic simulation: call-history search over the TDM cache state machine with injected homodyne outcomes",
         note="Trusts: my 60-line loop model and the Gaussian backend on plain programs (a code path disjoint from tdm/program.py)."),
     "C19": dict(
